@@ -92,6 +92,11 @@ class FakeMsg:
     def __contains__(self, name):
         return name in self._set
 
+    def __bool__(self):
+        # proto-plus Message.__bool__: "any field is truthy" -- a message that only carries presence (an optional scalar
+        # set to its default, an empty but present sub-message) is FALSY although it is not the default message
+        return any(bool(v) for v in self._set.values())
+
     def __eq__(self, other):
         return type(other) is type(self) and _norm(self) == _norm(other)
 
